@@ -23,7 +23,7 @@ PREFIX_KINDS = {"mk_group": 6, "mk_object": 12, "add_data": 12, "add_comment": 2
 RO_KINDS = {"mk_group": 4, "mk_object": 5, "add_data": 6, "add_comment": 3, "add_file": 2, "set_values": 5, "rename": 5, "set_flag": 4, "set_meta": 4,
             "move": 3, "move_data": 2, "copy": 5, "rm_ws": 5, "rm_parent": 4, "pg_add": 4, "pg_rm": 2, "pg_del": 2, "pg_new": 2, "type_edit": 3, "mk_dup": 1,
             "observe": 6, "lookup": 4, "list": 4, "gc": 2,
-            "hole_attr": 4, "h_fetch_active": 3, "h_fetch_rplus": 2, "h_monitored_copy": 3, "h_uijson": 3, "copy_out": 4, "copy_in": 3, "reopen_r": 3, "coop_write": 0, "h_save_as_refused": 2, "h_save_as_other": 2, "h_fetch_r_on_closed": 2, "c_pg_rm": 2, "c_set_values": 2, "c_add_data": 1}
+            "hole_attr": 4, "h_fetch_active": 3, "h_fetch_rplus": 2, "h_monitored_copy": 3, "h_uijson": 3, "copy_out": 4, "copy_in": 3, "reopen_r": 3, "coop_write": 0, "h_save_as_refused": 2, "h_save_as_other": 2, "h_stale_remove": 2, "h_fetch_r_on_closed": 2, "c_pg_rm": 2, "c_set_values": 2, "c_add_data": 1}
 
 
 class ReadOnlyScenario(BaseScenario):
@@ -121,7 +121,19 @@ class ReadOnlyScenario(BaseScenario):
                     writer = Workspace(path, mode="r+")     # a writable handle on the same file, same process
                     sim.probe("coopen")
                     sim.fault("coopen_rplus_handle")
-                ro = self.open_ro(cfg, path)
+                self._stale = None
+                pre = None
+                if cfg.get("r_via_open") and not world.suspect:
+                    # the caller obtained a data set in the writable session that precedes open(mode='r') on the same object
+                    import uuid as _uuid
+
+                    recs = handle.model.recs
+                    cands = sorted(u for u, r in recs.items() if r["kind"] == "data" and not r.get("concat") and recs[r["parent"]]["kind"] == "object"
+                                   and not recs[r["parent"]].get("pgs") and not recs[r["parent"]].get("concat") and r["flags"]["allow_delete"])
+                    pre = Workspace(path)
+                    if cands:
+                        self._stale = (cands[0], recs[cands[0]]["parent"], pre.get_entity(_uuid.UUID(cands[0].strip("{}")))[0])
+                ro = self.open_ro(cfg, path, pre)
                 if cfg.get("r_via_open"):
                     sim.probe("r_via_open")
                     if rawgeoh5.file_sha256(path) != base_sha:
@@ -364,6 +376,27 @@ class ReadOnlyScenario(BaseScenario):
                 self.check_mode(ro, "after a refused save_as")
             handle.ws = self.open_ro(world.cfg, path, ro) if world.cfg.get("r_via_open") else Workspace(path, mode="r")
             return "reopened"
+        if kind == "h_stale_remove":
+            # a removal requested with a handle from the earlier (writable) session of the same workspace object
+            stale = getattr(self, "_stale", None)
+            if stale is None or stale[2] is None or not ro._geoh5:  # pylint: disable=protected-access
+                return "skipped"
+            import uuid as _uuid
+
+            parent = ro.get_entity(_uuid.UUID(stale[1].strip("{}")))[0]
+            if parent is None:
+                return "skipped"
+            try:
+                parent.remove_children([stale[2]])
+                raised = False
+            except Exception:  # pylint: disable=broad-except
+                raised = True
+            del parent
+            sim.probe("stale_handle_removal")
+            if not raised:
+                raise Violation("C10", "write_not_refused", "remove_children with a data handle from the workspace's earlier writable session returned without raising "
+                                "(the file still links the child)", {"op": "stale_remove", "cls": "data"})
+            return "refused"
         if kind == "h_save_as_other":
             # another workspace (in memory, or itself read-only on its own file) is saved under the name of the file R holds,
             # spelled with or without the extension the library appends: refused, R's file keeps its bytes
